@@ -188,6 +188,7 @@ Proof. apply w_openat_follow_bal. Qed.
 Lemma w_openat2_bal fz fd p fl m rs o : bal (Rfd o) o (w_openat2 fz fd p fl m rs).
 Proof.
   unfold w_openat2. destruct (negb (valid_fd fd)); [constructor; hnf; reflexivity|].
+  destruct (OPENAT2_NUL_EINVAL && has_nul p); [apply fail1_bal; [apply perm_closed_Rfd|hnf; reflexivity]|].
   constructor; [intros ? E; discriminate|]. intro r. cbn [step_owned opens].
   destruct (as_fd r) as [k|e]; cbn [app].
   - constructor. hnf. reflexivity.
